@@ -1491,6 +1491,12 @@ class H2Connection:
         try:
             for frame in self.incoming_buffer:
                 events.extend(self._receive_frame(frame))
+
+                # The frame may have been a SETTINGS ACK that changes the
+                # frame size limit for the frames behind it in this buffer.
+                self.incoming_buffer.max_frame_size = (
+                    self.max_inbound_frame_size
+                )
         except InvalidPaddingError:
             self._terminate_connection(ErrorCodes.PROTOCOL_ERROR)
             raise ProtocolError("Received frame with invalid padding.")
